@@ -113,9 +113,11 @@ register('C01', [
     'skills/groups/compatibility/tour-order/locked-jobs (string-keyed std hash containers), breaks, reloads, recharge, goal assembly in goal_reader.rs, all search operators',
 ])
 register('C03', [
-    'source-of-numbers claim: schedules, tour totals and the cost fold are decided against an independent simulation; the pragmatic writer is not explored',
+    'schedules, tour totals and the cost fold are decided against an independent simulation; the pragmatic writer create_tour is executed from the MIR of vrp-pragmatic together with the MIR of vrp-core (cross-crate calls switch engines)',
+    'writer environment: format_time is an injective stub (times are compared as numbers), CoordIndex maps index <-> Location::Reference, get_job_tag answers None, parking 0, no reserved times; Dimensions carry Demand<MultiDimLoad> as the pragmatic reader stores it',
+    'vehicle cost rates are concrete pairwise-different vectors (the cost is linear in them); the driver has zero costs (the pragmatic format has no driver costs)',
 ], [
-    'solution_writer.rs (stop folding, time formatting, rounding, tags), per-tour statistic split, haversine routing approximation',
+    'RFC3339 formatting and JSON serialisation, the one-unit rounding of non-integer values (inputs are integer-valued), place tags (get_job_tag), reloads / vehicle breaks written by break_writer.rs, clustering (commute, parking), stops shared by several activities at one location in whole-tour obligations (covered only by the single step), haversine routing approximation',
 ])
 register('C05', [
     'mechanism claim: the cache-computing functions are total functions of the tour alone (history independence proved per output) and equal the reference recomputation',
